@@ -1340,6 +1340,11 @@ func ruleSEM3(c *Ctx) {
 	var evalCond func(e ast.Expr, tok types.Object) (bool, bool)
 	evalCond = func(e ast.Expr, tok types.Object) (bool, bool) {
 		switch x := ast.Unparen(e).(type) {
+		case *ast.Ident:
+			// a named condition: `isDefine := op == token.Define`
+			if d := singleDef(p, fd, x); d != nil {
+				return evalCond(d, tok)
+			}
 		case *ast.UnaryExpr:
 			if x.Op == token.NOT {
 				v, ok := evalCond(x.X, tok)
